@@ -39,7 +39,7 @@ func c07(r *core.Run) {
 	r.MustHold(core.TLCOpts{Module: "MCBus_c07", Config: pickCfg(r, "MCBus_c07.cfg", "MCBus_c07_thorough.cfg"), Timeout: 40 * time.Minute})
 	r.MustFail(core.TLCOpts{Module: "MCBus_c07", Config: "MCBus_c07_mut_nomutex.cfg"}, "NoOverlap")
 	r.MustFail(core.TLCOpts{Module: "MCBus_c07", Config: "MCBus_c07_mut_nofifo.cfg"}, "SeqFifo")
-	g := busdrv.GenOpts{Procs: 3, OpsPerProc: [2]int{4, 9}, Types: 2, Async: 0.5, Once: 0.1, Seq: 0.85, Filt: 0.1, Body: 0.3, ChainPub: true, Yield: true, Sleep: 300,
+	g := busdrv.GenOpts{Procs: 3, OpsPerProc: [2]int{4, 8}, Types: 2, Async: 0.5, Once: 0.1, Seq: 0.85, Filt: 0.1, Body: 0.1, Yield: true, Sleep: 300,
 		Kinds: []string{"sub", "sub", "pub", "pub", "pub", "pub", "pub", "pub", "count", "cancel"},
 		Ctxs:  []string{"c1", "c2"}, Cfgs: []busdrv.Cfg{plainCfg}}
 	stress(r, "c07-stress", g, r.Pick(200, 4000), []int{1, 2, 4, 16}, 707, classifyC07, "no-deadlock")
